@@ -233,6 +233,8 @@ class TestPxssh(PX.pxssh):
         except TIMEOUT:
             self.rec_expect.append([n, 'T', self.clk.now]); raise
         self.rec_expect.append([n, 'i%d' % i, self.clk.now])
+        a = self.after
+        self.last_after = a.decode('latin-1') if isinstance(a, bytes) else a if isinstance(a, str) else None
         return i
 
     def try_read_prompt(self, timeout_multiplier):
@@ -261,6 +263,9 @@ def one_login(p, srv, clock, case, spawned, out):
         kw['spawn_local_ssh'] = False
     if o.get('original_prompt'):
         kw['original_prompt'] = o['original_prompt']
+    if o.get('password_regex'):
+        kw['password_regex'] = o['password_regex']
+    p.last_after = None
     t0 = clock.now
     try:
         r = p.login('testhost', 'alice', PASSWORD, **kw)
@@ -278,6 +283,7 @@ def one_login(p, srv, clock, case, spawned, out):
     out['elapsed'] = round(clock.now - t0, 4)
     out['closed'] = bool(p.closed)
     out['expects'] = [[n, a] for n, a, _ in p.rec_expect]
+    out['last_after'] = getattr(p, 'last_after', None)
     out['reads'] = list(p.rec_reads)
     out['sent'] = [list(x) for x in p.rec_sent]
     out['lines'] = [list(x) for x in srv.lines]
@@ -411,7 +417,7 @@ def oracle(case, out):
     acc = ''
     # rebuild "output since previous client send" from the server's own log: out['lines'] holds it per received line
     for t, _, s in out['sent']:
-        if t == PASSWORD + '\n' and not PW_RE.search(s):
+        if t == PASSWORD + '\n' and not (re.compile(o['password_regex']) if o.get('password_regex') else PW_RE).search(s):
             return ('login/password-without-prompt', 'password sent although the client had only read %r since its previous send' % s[-60:])
         if t == 'yes\n' and not HK_RE.search(s):
             return ('login/yes-without-question', 'yes sent although the client had only read %r since its previous send' % s[-60:])
@@ -441,6 +447,12 @@ def oracle(case, out):
                 return ('login/ok-without-sync', 'True with sync_original_prompt although the last two answers to Enter differ: %r / %r (edit distance %d)' % (a_[-40:], b_[-40:], prev[-1]))
         if not sh:
             if not o['reset'] and not o['sync']:
+                last = out['expects'][-1][1] if out.get('expects') else None
+                took = out.get('last_after')
+                if last != 'T' and took is not None and not re.search(o.get('original_prompt') or r'[#$]', took):
+                    # not the TIMEOUT heuristic: some text was taken for the shell prompt, and it is not what this call was told a prompt looks like
+                    return ('login/ok-on-foreign-prompt', 'login() returned True on the text %r, which does not match the original_prompt %r given to this call (no shell was reached)' % (
+                        took[-40:], o.get('original_prompt') or r'[#$]'))
                 return (KNOWN_SILENT, 'login() returned True although the server never reached a shell prompt (steps done: %d)' % out['server_k'])
             if not o['reset']:
                 # sync accepted two similar non-empty answers of a non-shell: the heuristic itself (not judged)
@@ -499,6 +511,7 @@ ITEMS = {
     'closed': [['say', 'Connection closed by remote host\r\n'], ['close']],
     'silence': [['silence', 50]],
     'pause': [['silence', 0.7]],
+    'pwcolon': [['say', 'Reminder - never tell anyone your password: IT will not ask for it.\r\n']],
     'exit': [['close']],
 }
 
@@ -539,6 +552,12 @@ CORPUS = [
          then=dict(items=['password'], shell=['shell', 'sh', 'inner$ ', {}], opts=dict(sync=True, reset=True, local=False), commands=['echo price: $5 #1', 'big 300'])),
     dict(items=['password'], shell=['shell', 'sh', 'jump$ ', {}], opts=dict(sync=True, reset=True), commands=['echo on jump'],
          then=dict(items=['hostkey', 'password', 'denied', 'password'], shell=None, opts=dict(sync=True, reset=True, local=False))),
+    # round-8 change C17-8A: the second login is told what a prompt / a password question looks like; the first login's ideas must not be reused
+    dict(items=['password'], shell=['shell', 'sh', 'jump$ ', {}], opts=dict(sync=True, reset=False),
+         then=dict(items=['banner', 'pause', 'password', 'denied', 'password'], shell=None, opts=dict(sync=False, reset=False, local=False, original_prompt=r'inner\$ $'))),
+    dict(items=['password'], shell=['shell', 'sh', 'jump$ ', {}], opts=dict(sync=True, reset=False),
+         then=dict(items=['pwcolon', 'pause', 'password'], shell=['shell', 'sh', 'inner$ ', {}],
+                   opts=dict(sync=True, reset=True, local=False, password_regex=r"(?i)'s password: "), commands=['echo in'])),
     dict(items=[], shell=['shell', 'csh', 'j% ', {}], opts=dict(sync=False, reset=True),
          then=dict(items=['banner'], shell=['shell', 'zsh', 'z% ', {}], opts=dict(sync=False, reset=True, local=False), commands=['echo $x #y'])),
 ]
